@@ -32,13 +32,15 @@ def gen(rng, d, n, prefix, depth2_ratio=0.3, mix=None):
         while top.size % (1 << bsb) and bsb > 9:
             bsb -= 1
         g = hist.Geom(top.cluster_bits, top.refcount_order, top.size, bsb, l2, rb, punch=rng.choice([1, 1, 0]))
-        ops = hist.gen_ops(rng, g, rng.randrange(3, 25), mix=mix or {'W': 50, 'R': 25, 'D': 8, 'F': 8, 'K': 3, 'S': 2, 'N': 2})
+        # short histories too: a single operation whose effect nothing else re-dirties or repairs
+        nops = rng.choice([1, 1, 2, 3]) if rng.random() < 0.3 else rng.randrange(3, 25)
+        ops = hist.gen_ops(rng, g, nops, mix=mix or {'W': 50, 'R': 25, 'D': 8, 'F': 8, 'K': 3, 'S': 2, 'N': 2}, flush_end=nops > 3)
         text, plan, snaps, _ = seqrun.build_case(cid, g, ops, rng, flat=flat, images=paths)
         cases.append({'cid': cid, 'g': g, 'ops': ops, 'text': text, 'plan': plan, 'snaps': snaps, 'descs': descs, 'paths': paths})
     return cases
 
 
-def run_foreign(prop, tier, seed, projections, n, explanation, mix=None, extra_judge=None, plain_n=0, level='exploration', gate=None):
+def run_foreign(prop, tier, seed, projections, n, explanation, mix=None, extra_judge=None, plain_n=0, level='exploration', gate=None, sim_n=0):
     t = qv.Timer()
     rng = qv.Rng(seed)
     gate = gate or {'ok': True, 'obligations': 0, 'discharged': 0, 'failed': None, 'axioms': [], 'checker_cmd': '', 'gen': {}}
@@ -104,17 +106,35 @@ def run_foreign(prop, tier, seed, projections, n, explanation, mix=None, extra_j
                                                                        'geometry': c['g'].desc(), 'ops': c['ops'], 'case_text': text}))
             violations.append({'replay': path})
             print('  finding in %s [%s chain=%d]: %s' % (c['cid'], c['g'].desc(), len(c['descs'] or [1]), f[2][:300]))
+    sim_stats = {}
+    if sim_n:
+        # correspondence of the Coq device model with the library (see devsim.py); findings of this property's classes
+        import devsim
+        sfinds, sstats, sd = devsim.run_sim(rng, sim_n, tag=prop.lower() + 'sim')
+        sim_stats = dict(sstats)
+        for (cls, cid, desc, text) in sfinds:
+            if prop not in devsim.CLASS_PROPS.get(cls, ()):
+                other['model-' + cls] += 1
+                continue
+            counts['model-' + cls] += 1
+            if len(violations) < 5:
+                path = qv.write_replay(prop, cid + '.json', json.dumps({'finding': {'projection': 'model-' + cls, 'what': desc}, 'case_text': text}))
+                violations.append({'replay': path})
+                print('  finding (device model vs library) in %s: %s' % (cid, desc[:300]))
+        shutil.rmtree(sd, ignore_errors=True)
     shutil.rmtree(d, ignore_errors=True)
     shutil.rmtree(d0, ignore_errors=True)
     cov = {'evaluations': len(cases), 'distinct_nontrivial': len(cases),
            'rule': 'images from the independent builder (data / compressed / zero / preallocated-zero / unallocated clusters, optional backing chain of depth 1-2, backing shorter / equal / longer) x random device parameters x histories of partial, whole and straddling writes, reads, discards, flushes; closing sweep, flush, snapshot, reopen with other parameters, sweep; specification checker on every flushed snapshot',
            'samples': [{'image': c['g'].desc() + (' chain=%d' % len(c['descs']) if c['descs'] else ' (library formatted)'), 'ops': [hist.op_line(o) for o in c['ops'][:8]]} for c in cases[:2] + cases[-1:]],
            'programs': len(cases), 'disagreements_checked': sum(counts.values()), 'distribution': dict(stats),
-           'findings_by_projection': dict(counts), 'findings_left_to_other_properties': dict(other)}
+           'findings_by_projection': dict(counts), 'findings_left_to_other_properties': dict(other), 'device_model_correspondence': sim_stats}
     return common.finish(prop, tier, seed, level, gate, cov, t, violations, known, ['as C09'], explanation)
 
 
 def run(tier, seed, replay):
     n = 250 if tier == 'quick' else 2500
+    gate = common.proof_gate('C10', ['Model/Dev.v', 'Proofs/DevProps.v', 'Props/C10.v'])
     return run_foreign('C10', tier, seed, ('read', 'api', 'reopen', 'valid', 'backing-written', 'open'), n,
-                       'COW histories over backing-provided and compressed clusters: FlatDisk oracle now and after flush+reopen, validb on the flushed file, backing request logs read-only.')
+                       'Theorems over the device model (Props/C10.v: COW keeps the source content, replaced compressed clusters released once) + model/library correspondence + COW histories over backing-provided and compressed clusters: FlatDisk oracle now and after flush+reopen, validb on the flushed file, backing request logs read-only.',
+                       level='proof', gate=gate, sim_n=(40 if tier == 'quick' else 1000))
